@@ -130,12 +130,14 @@ def plan_C02(tier, seed, q):
     if q:
         specs = [{"n": 2, "l": 6}, {"n": 3, "l": 4}, {"n": 2, "l": 4, "race": 6}, {"n": 1, "l": 6}, {"n": 3, "l": 5, "sample": 4}]
         jobs = (sched_jobs("C02", tier, seed, specs, shards=4) + e2e_jobs("C02", tier, seed, "mix", 200, 3000, shards=8)
+                + e2e_jobs("C02", tier, seed + 5, "order", 120, 1500, shards=6)
                 + pool_jobs("C02", tier, seed, [("limits", 600), ("restart", 600)], shards=4))
     else:
         specs = [{"n": 2, "l": 7}, {"n": 3, "l": 5}, {"n": 3, "l": 6, "sample": 6}, {"n": 3, "l": 4, "race": 8}, {"n": 1, "l": 7}, {"n": 4, "l": 4, "sample": 3}]
         jobs = sched_jobs("C02", tier, seed, specs, shards=8, timeout=3000)
         jobs += sched_jobs("C02", tier, seed, [{"n": 2, "l": 4, "race": 3}, {"n": 3, "l": 3}], shards=4, kind="vt-race", timeout=3000)
         jobs += e2e_jobs("C02", tier, seed, "mix", 200, 3000, shards=8, race_t=300)
+        jobs += e2e_jobs("C02", tier, seed + 5, "order", 120, 1500, shards=6)
         jobs += pool_jobs("C02", tier, seed, [("limits", 8000), ("restart", 8000)], shards=8)
     return {"level": "fault_enumeration", "exhaustive": False,
             "exhaustive_parts": ["every statically valid event script for (N=2, L<=6), (N=3, L<=4), (N=1, L<=6)" if q else
